@@ -555,6 +555,13 @@ def run(tier, seed, t0):
             for fchunk in spaces.chunks(frozens, 4):
                 if bpats[i::nb]:
                     shards.append(("bounded", (bpats[i::nb], fchunk, seeds, bound, retry)))
+    # medium-size inputs with many residues of one sign in mixed spelling (cluster sizes 5..9 only exist here): retry moves,
+    # all tapes within 1 (thorough 2) deviations of 6 (thorough 8) base tapes each
+    med = ["++0++0+++0", "--0+-0---0-+", "+-++-+0+-+-+0+", "0++++0-++++0", "-+--0--+---0-", "+++0+++0+++0++"]
+    mseeds = [seed * 7 + 11 + k for k in range(6 if tier == "quick" else 8)]
+    for mp in med:
+        for k in range(0, len(mseeds), 2):
+            shards.append(("bounded", ([mp], [(), (1,)] if tier == "thorough" else [()], mseeds[k:k + 2], 1 if tier == "quick" else 2, retry)))
     for c in chains:
         shards.append(("chain", [c]))
     two_roots = ["KREDG", "KEGAK", "KRGED"] if tier == "quick" else ["KREDG", "KEGAK", "KRGED", "KREDGA", "GKEGRD"]
@@ -570,7 +577,7 @@ def run(tier, seed, t0):
              "COMPLETE tree of all outcomes of the internal random draws (scripted random.Random: every value of every _randbelow, "
              "both sides of every float comparison) x every frozen subset (as %s). permute_block_swap / permute_cluster_charges: "
              "%d patterns x %d frozen sets, all tapes within %d deviation(s) of %d base tape(s) (VERIF_SEED-derived), horizon 60 choice "
-             "points, retry bound %d candidate children (cut executions are 'truncated' and not judged). Chains: BFS over live "
+             "points, retry bound %d candidate children (cut executions are 'truncated' and not judged); plus 6 medium-size patterns (10-14 residues, 6-11 residues of one sign in alternating K/R, D/E spelling) x 6-8 base tapes. Chains: BFS over live "
              "objects under swapRes/full_shuffle/swapRandChargeRes x all tapes to the fixpoint of (arrangement, cached) states from "
              "%d roots; two-move sequences with a different single-site frozen set per move (complete trees of both moves); one frozen-set "
              "object reused on a short and then a longer sequence. Oracle per execution: child is a rearrangement, frozen positions keep their residue, child.len / charge "
